@@ -36,119 +36,15 @@ type vfC12Case struct {
 
 func vfBuildAt(root vfRoot, p vrt.Path, value string, pad bool) proto.Message {
 	o := vrt.BuildOpts{
-		SetLeaf:  func(m protoreflect.Message, leaf protoreflect.FieldDescriptor) { m.Set(leaf, protoreflect.ValueOfString(value)) },
-		Decorate: vfDecorateEvent,
+		SetLeaf: func(m protoreflect.Message, leaf protoreflect.FieldDescriptor) {
+			m.Set(leaf, protoreflect.ValueOfString(value))
+		},
+		Decorate: vrt.DecorateEvent,
 	}
 	if pad {
-		o.Pad = vfPadSkippableEvent
+		o.Pad = vrt.PadSkippableEvent
 	}
 	return vrt.BuildForPath(root.MD, p, o)
-}
-
-// vfPopulateNames: fully populated message with `value` in every namespace-name field.
-func vfPopulateNames(md protoreflect.MessageDescriptor, value string) proto.Message {
-	str := func(path string, fd protoreflect.FieldDescriptor) string {
-		if vfIsNamespaceNameField(fd) {
-			return value
-		}
-		return "s:" + path
-	}
-	var custom func(fd protoreflect.FieldDescriptor, path string) (protoreflect.Value, bool)
-	custom = func(fd protoreflect.FieldDescriptor, path string) (protoreflect.Value, bool) {
-		if fd.Kind() == protoreflect.MessageKind && !fd.IsMap() && fd.Message().FullName() == "temporal.api.common.v1.DataBlob" {
-			blobMD := fd.Message()
-			b := vrt.NewMessage(blobMD)
-			b.Set(blobMD.Fields().ByName("encoding_type"), protoreflect.ValueOfEnum(1))
-			if vrt.EventBlobFields[fd.FullName()] {
-				hist := vrt.PopulateCustom(vrt.HistoryDescriptor(), 2, str, custom)
-				vfFixEventTypes(hist.ProtoReflect())
-				data, err := proto.MarshalOptions{Deterministic: true}.Marshal(hist)
-				if err != nil {
-					panic(err)
-				}
-				b.Set(blobMD.Fields().ByName("data"), protoreflect.ValueOfBytes(data))
-			} else {
-				b.Set(blobMD.Fields().ByName("data"), protoreflect.ValueOfBytes([]byte("opaque:"+path)))
-			}
-			if fd.IsList() {
-				return protoreflect.Value{}, false // handled below through a list append
-			}
-			return protoreflect.ValueOfMessage(b), true
-		}
-		return protoreflect.Value{}, false
-	}
-	m := vrt.PopulateCustom(md, 2, str, custom)
-	vfFillBlobLists(m.ProtoReflect(), str, custom)
-	vfFixEventTypes(m.ProtoReflect())
-	return m
-}
-
-// vfFillBlobLists replaces the (opaque) elements Populate put into repeated DataBlob fields that are
-// event-bearing with valid encoded histories.
-func vfFillBlobLists(m protoreflect.Message, str func(string, protoreflect.FieldDescriptor) string, custom func(protoreflect.FieldDescriptor, string) (protoreflect.Value, bool)) {
-	m.Range(func(fd protoreflect.FieldDescriptor, v protoreflect.Value) bool {
-		if fd.Kind() != protoreflect.MessageKind {
-			return true
-		}
-		if fd.IsList() && fd.Message().FullName() == "temporal.api.common.v1.DataBlob" {
-			l := v.List()
-			for i := 0; i < l.Len(); i++ {
-				b := l.Get(i).Message()
-				b.Set(b.Descriptor().Fields().ByName("encoding_type"), protoreflect.ValueOfEnum(1))
-				if vrt.EventBlobFields[fd.FullName()] {
-					hist := vrt.PopulateCustom(vrt.HistoryDescriptor(), 2, str, custom)
-					vfFixEventTypes(hist.ProtoReflect())
-					data, _ := proto.MarshalOptions{Deterministic: true}.Marshal(hist)
-					b.Set(b.Descriptor().Fields().ByName("data"), protoreflect.ValueOfBytes(data))
-				}
-			}
-			return true
-		}
-		switch {
-		case fd.IsMap():
-			if fd.MapValue().Kind() == protoreflect.MessageKind {
-				v.Map().Range(func(_ protoreflect.MapKey, mv protoreflect.Value) bool { vfFillBlobLists(mv.Message(), str, custom); return true })
-			}
-		case fd.IsList():
-			for i := 0; i < v.List().Len(); i++ {
-				vfFillBlobLists(v.List().Get(i).Message(), str, custom)
-			}
-		default:
-			vfFillBlobLists(v.Message(), str, custom)
-		}
-		return true
-	})
-}
-
-// vfFixEventTypes makes event_type agree with the populated attributes arm everywhere.
-func vfFixEventTypes(m protoreflect.Message) {
-	if m.Descriptor().FullName() == vfHistoryEventName {
-		m.Range(func(fd protoreflect.FieldDescriptor, _ protoreflect.Value) bool {
-			if n, ok := vfEventTypeFor(fd); ok {
-				m.Set(m.Descriptor().Fields().ByName("event_type"), protoreflect.ValueOfEnum(n))
-				return false
-			}
-			return true
-		})
-	}
-	m.Range(func(fd protoreflect.FieldDescriptor, v protoreflect.Value) bool {
-		if fd.Kind() != protoreflect.MessageKind || strings.HasPrefix(string(fd.Message().FullName()), "google.protobuf.") && !fd.IsMap() {
-			return true
-		}
-		switch {
-		case fd.IsMap():
-			if fd.MapValue().Kind() == protoreflect.MessageKind {
-				v.Map().Range(func(_ protoreflect.MapKey, mv protoreflect.Value) bool { vfFixEventTypes(mv.Message()); return true })
-			}
-		case fd.IsList():
-			for i := 0; i < v.List().Len(); i++ {
-				vfFixEventTypes(v.List().Get(i).Message())
-			}
-		default:
-			vfFixEventTypes(v.Message())
-		}
-		return true
-	})
 }
 
 type vfC12Stats struct {
@@ -163,7 +59,7 @@ func vfC12Check(res *vrt.Result, tr Translator, root vfRoot, msg proto.Message, 
 		mapping = map[string]string{vfRemoteNS: vfLocalNS}
 	}
 	ref := proto.Clone(msg)
-	refMatched, err := vfRefTranslateNames(ref, mapping)
+	refMatched, err := vrt.RefTranslateNames(ref, mapping)
 	if err != nil {
 		res.Violate("harness/reference-error", fmt.Sprintf("%s %s: %v", root, where, err), replay)
 		return
@@ -189,7 +85,7 @@ func vfC12Check(res *vrt.Result, tr Translator, root vfRoot, msg proto.Message, 
 		res.Violate("translator-error/"+sig, fmt.Sprintf("%s, %s: translator returned %v", root, where, err), replay)
 		return
 	}
-	eq, cerr := vfCanonEqual(msg, ref)
+	eq, cerr := vrt.CanonEqual(msg, ref)
 	if cerr != nil {
 		res.Violate("translator-corrupts-blob/"+sig, fmt.Sprintf("%s, %s: result has an undecodable blob: %v", root, where, cerr), replay)
 		return
@@ -219,7 +115,7 @@ func TestVerifC12(t *testing.T) {
 	var jobs []job
 	perRoot := map[string]int{}
 	for _, r := range roots {
-		ps := vrt.EnumeratePaths(r.MD, vfIsNamespaceNameField, vrt.WalkOptions{MaxPerType: 2, ThroughBlobs: true})
+		ps := vrt.EnumeratePaths(r.MD, vrt.IsNamespaceNameField, vrt.WalkOptions{MaxPerType: 2, ThroughBlobs: true})
 		perRoot[r.String()] = len(ps)
 		for _, p := range ps {
 			jobs = append(jobs, job{r, p})
@@ -243,18 +139,18 @@ func TestVerifC12(t *testing.T) {
 		if j.root.Response {
 			value = vfRemoteNS
 		}
-		sig := vfPathSignature(j.path)
+		sig := vrt.PathSignature(j.path)
 		atomic.AddInt64(&st.paths, 1)
-		if vfPathBlobField(j.path) != "" {
+		if vrt.PathBlobField(j.path) != "" {
 			atomic.AddInt64(&st.blobPaths, 1)
 		}
-		if et := vfPathEventType(j.path); et != "" {
+		if et := vrt.PathEventType(j.path); et != "" {
 			atomic.AddInt64(&st.eventPaths, 1)
 			st.eventTypes.Store(et, true)
 		}
 		hasEventList := false
 		for _, s := range j.path {
-			if s.Field.IsList() && s.Field.Kind() == protoreflect.MessageKind && s.Field.Message().FullName() == vfHistoryEventName {
+			if s.Field.IsList() && s.Field.Kind() == protoreflect.MessageKind && s.Field.Message().FullName() == vrt.HistoryEventName {
 				hasEventList = true
 			}
 		}
@@ -279,7 +175,7 @@ func TestVerifC12(t *testing.T) {
 		if r.Response {
 			value = vfRemoteNS
 		}
-		msg := vfPopulateNames(r.MD, value)
+		msg := vrt.PopulateNames(r.MD, value)
 		c := vfC12Case{Root: r.String(), Path: "(all)", Variant: "fully-populated"}
 		vfC12Check(res, tr, r, proto.Clone(msg), "fully-populated:"+string(r.MD.Name()), "fully populated message", c, st)
 		atomic.AddInt64(&populated, 1)
@@ -287,24 +183,24 @@ func TestVerifC12(t *testing.T) {
 		if !r.Response {
 			req := proto.Clone(msg)
 			ref := proto.Clone(msg)
-			_, _ = vfRefTranslateNames(ref, map[string]string{vfLocalNS: vfRemoteNS})
+			_, _ = vrt.RefTranslateNames(ref, map[string]string{vfLocalNS: vfRemoteNS})
 			var seen proto.Message
 			_, _ = ti.Intercept(context.Background(), req, &grpc.UnaryServerInfo{FullMethod: r.Full}, func(ctx context.Context, q any) (any, error) {
 				seen = proto.Clone(q.(proto.Message))
 				return nil, nil
 			})
 			if seen != nil {
-				if eq, _ := vfCanonEqual(seen, ref); !eq {
+				if eq, _ := vrt.CanonEqual(seen, ref); !eq {
 					res.Violate("untranslated/interceptor:"+string(r.MD.Name()), fmt.Sprintf("%s through TranslationInterceptor.Intercept: the handler saw a request that differs from the reference translation", r), c)
 				}
 			}
 		} else {
 			resp := proto.Clone(msg)
 			ref := proto.Clone(msg)
-			_, _ = vfRefTranslateNames(ref, map[string]string{vfRemoteNS: vfLocalNS})
+			_, _ = vrt.RefTranslateNames(ref, map[string]string{vfRemoteNS: vfLocalNS})
 			out, _ := ti.Intercept(context.Background(), nil, &grpc.UnaryServerInfo{FullMethod: r.Full}, func(ctx context.Context, q any) (any, error) { return resp, nil })
 			if om, ok := out.(proto.Message); ok {
-				if eq, _ := vfCanonEqual(om, ref); !eq {
+				if eq, _ := vrt.CanonEqual(om, ref); !eq {
 					res.Violate("untranslated/interceptor:"+string(r.MD.Name()), fmt.Sprintf("%s through TranslationInterceptor.Intercept: the caller got a response that differs from the reference translation", r), c)
 				}
 			}
